@@ -2,7 +2,7 @@
 import ast
 
 from .. import compq, pyq, readerq
-from ..pysrc import dotted, norm
+from ..pysrc import dotted, norm, flat
 from ..readerq import HR, RD
 
 RI = "hy/reader/__init__.py"
@@ -76,7 +76,7 @@ def check(ctx, src):
     ctx.check("(eval-and-compile (hy.macros.reader-macro" in t and "(eval-when-compile (setv (get (. (hy.reader.HyReader.current-reader) reader-macros)" in t, "DEFREADER", "hy/core/macros.hy|defreader|define and enable", "defreader must define the macro (compile time and run time) and enable it in the current reader at compile time",
               "hy/core/macros.hy", dr.line, witness="a reader macro is not usable in the next top-level form", detail="eval-and-compile + eval-when-compile")
     td = rq.handlers["#"][2]
-    tt = " ".join(ast.unparse(td).split())
+    tt = flat(td)
     ctx.check("if ident in self.reader_macros:" in tt and "raise LexException.from_reader(f\"reader macro '{key + ident}' is not defined\", self)" in tt, "DEFREADER", f"{HR}|tag_dispatch|undefined", "an undefined reader macro must raise LexException", HR, td.lineno, detail="LexException")
     ctx.floor("LAZY", 8)
     ctx.floor("ISOLATION", 8)
